@@ -62,6 +62,12 @@ func c03RootFinders(p *Prog) []*ssa.Function {
 	for _, f := range p.FuncsOfPkg("") {
 		if len(CallsTo(f, nStackPop)) > 0 && len(c03LookupCalls(f, fpOpt)) > 0 {
 			out = append(out, f)
+			continue
+		}
+		for _, rf := range c01RangeFuncs(f) {
+			if rf.Prod != nil && len(CallsTo(rf.Prod, nStackPop)) > 0 && len(c03LookupCalls(rf.Body, fpOpt)) > 0 {
+				out = append(out, f)
+			}
 		}
 	}
 	return out
@@ -216,52 +222,161 @@ func c03R1(c *Ctx) {
 	}
 	for _, F := range fs {
 		fname := FnName(F)
-		pops := CallsTo(F, nStackPop)
-		// the DFS loop: the innermost loop containing a Pop (a three-clause `for x, ok := Pop(); ok; x, ok = Pop()` has a second one before it)
-		var dfs *Loop
-		var pop ssa.CallInstruction
-		for _, pc := range pops {
-			for _, l := range Loops(F) {
-				if l.Contains(pc.(ssa.Instruction)) && (dfs == nil || len(l.Blocks) < len(dfs.Blocks)) {
-					dfs, pop = l, pc
-				}
-			}
-		}
-		if dfs == nil {
-			c.Violation(R, fname+"|dfs-loop", pops[0].Pos(), "Stack.Pop is not inside a loop: only one node would be examined")
-			continue
-		}
-		header := dfs.Header.Instrs[0]
-		poppedSet, okSet := map[ssa.Value]bool{}, map[ssa.Value]bool{}
-		for _, pc := range pops {
-			if v := ResultOf(pc, 0); v != nil {
-				for a := range Aliases(v) {
-					poppedSet[a] = true
-				}
-			}
-			if v := ResultOf(pc, 1); v != nil {
-				for a := range Aliases(v) {
-					okSet[a] = true
-				}
-			}
-		}
-		if len(poppedSet) == 0 {
-			c.Violation(R, fname+"|dfs-loop", pop.Pos(), "the node returned by Stack.Pop is discarded")
-			continue
-		}
-		// program points right after a successful Pop: the ok==true edges, or (when the
-		// emptiness is tested before popping) the instruction after the Pop itself
+		// B is the function holding the loop body: F itself, or the yield closure of a `for current := range drain(&stack)`
+		B := F
 		type c03Start struct {
 			b *ssa.BasicBlock
 			i int
 		}
 		var starts []c03Start
-		okEdges, _ := BoolTests(F, okSet)
-		for _, e := range okEdges {
-			starts = append(starts, c03Start{e.To, 0})
+		var nexts []ssa.Instruction // reaching one of these = next iteration
+		var loopEntry ssa.Instruction
+		var stackRecv ssa.Value
+		var pop ssa.CallInstruction
+		inLoop := func(in ssa.Instruction) bool { return false }
+		poppedSet, okSet := map[ssa.Value]bool{}, map[ssa.Value]bool{}
+		pops := CallsTo(F, nStackPop)
+		rangeMode := false
+		if len(pops) == 0 {
+			for _, rf := range c01RangeFuncs(F) {
+				if rf.Prod == nil || len(CallsTo(rf.Prod, nStackPop)) == 0 {
+					continue
+				}
+				// the producer yields every popped element and stops only when the stack is empty or the consumer stops
+				P := rf.Prod
+				okProd := true
+				var yields []ssa.Instruction
+				pp := CallsTo(P, nStackPop)
+				popped := map[ssa.Value]bool{}
+				var okE []Edge
+				for _, pc := range pp {
+					if v := ResultOf(pc, 0); v != nil {
+						for a := range Aliases(v) {
+							popped[a] = true
+						}
+					}
+					if v := ResultOf(pc, 1); v != nil {
+						t, _ := BoolTests(P, Aliases(v))
+						okE = append(okE, t...)
+					}
+				}
+				for _, yc := range Calls(P, func(string) bool { return true }) {
+					if !yc.Common().IsInvoke() && yc.Common().Value == ssa.Value(P.Params[0]) {
+						if len(yc.Common().Args) != 1 || !popped[yc.Common().Args[0]] {
+							okProd = false
+						}
+						yields = append(yields, yc.(ssa.Instruction))
+					}
+				}
+				if len(yields) == 0 || len(okE) == 0 {
+					okProd = false
+				}
+				for _, e := range okE {
+					for _, pc := range pp {
+						if reach(e.To, 0, pc.(ssa.Instruction), newCut().Instr(yields...)) {
+							okProd = false
+						}
+					}
+					for _, r := range Returns(P) {
+						if reach(e.To, 0, r, newCut().Instr(yields...)) {
+							okProd = false
+						}
+					}
+				}
+				// which argument of the producer is the stack
+				if recvLd, isLd := pp[0].Common().Args[0].(*ssa.UnOp); isLd {
+					if srcs, okS := c01CarriedSources(c.P, recvLd); okS && len(srcs) == 1 {
+						if prm, isP := srcs[0].(*ssa.Parameter); isP {
+							for i, q := range prm.Parent().Params {
+								if q == prm && i < len(rf.ProdCall.Call.Args) {
+									stackRecv = rf.ProdCall.Call.Args[i]
+								}
+							}
+						}
+					}
+				} else if prm, isP := pp[0].Common().Args[0].(*ssa.Parameter); isP {
+					_ = prm
+				}
+				if !okProd || stackRecv == nil {
+					c.Undecided(R, fname+"|dfs-loop", rf.Call.Pos(), "the iterator the DFS ranges over is not recognised as draining the stack (yield every popped element until empty)")
+					continue
+				}
+				rangeMode = true
+				B = rf.Body
+				pop = pp[0]
+				nexts = c01NextIterTargets(B)
+				loopEntry = rf.Call.(ssa.Instruction)
+				body := B
+				inLoop = func(in ssa.Instruction) bool {
+					f := in.Parent()
+					for f != nil {
+						if f == body {
+							return true
+						}
+						f = f.Parent()
+					}
+					return false
+				}
+				for a := range Aliases(B.Params[0]) {
+					poppedSet[a] = true
+				}
+				// the body proper starts where the yielded value is used: the entry of the closure
+				starts = append(starts, c03Start{B.Blocks[0], 0})
+			}
+			if !rangeMode {
+				continue
+			}
+		} else {
+			// the DFS loop: the innermost loop containing a Pop (a three-clause `for x, ok := Pop(); ok; x, ok = Pop()` has a second one before it)
+			var dfs *Loop
+			for _, pc := range pops {
+				for _, l := range Loops(F) {
+					if l.Contains(pc.(ssa.Instruction)) && (dfs == nil || len(l.Blocks) < len(dfs.Blocks)) {
+						dfs, pop = l, pc
+					}
+				}
+			}
+			if dfs == nil {
+				c.Violation(R, fname+"|dfs-loop", pops[0].Pos(), "Stack.Pop is not inside a loop: only one node would be examined")
+				continue
+			}
+			nexts = []ssa.Instruction{dfs.Header.Instrs[0]}
+			loopEntry = dfs.Header.Instrs[0]
+			inLoop = dfs.Contains
+			stackRecv = pop.Common().Args[0]
+			for _, pc := range pops {
+				if v := ResultOf(pc, 0); v != nil {
+					for a := range Aliases(v) {
+						poppedSet[a] = true
+					}
+				}
+				if v := ResultOf(pc, 1); v != nil {
+					for a := range Aliases(v) {
+						okSet[a] = true
+					}
+				}
+			}
+			if len(poppedSet) == 0 {
+				c.Violation(R, fname+"|dfs-loop", pop.Pos(), "the node returned by Stack.Pop is discarded")
+				continue
+			}
+			// program points right after a successful Pop: the ok==true edges, or (when the
+			// emptiness is tested before popping) the instruction after the Pop itself
+			okEdges, _ := BoolTests(F, okSet)
+			for _, e := range okEdges {
+				starts = append(starts, c03Start{e.To, 0})
+			}
+			if len(starts) == 0 {
+				starts = append(starts, c03Start{pop.Block(), instrIndex(pop.(ssa.Instruction)) + 1})
+			}
 		}
-		if len(starts) == 0 {
-			starts = append(starts, c03Start{pop.Block(), instrIndex(pop.(ssa.Instruction)) + 1})
+		toNext := func(b *ssa.BasicBlock, i int, k *cut) bool {
+			for _, n := range nexts {
+				if reach(b, i, n, k) {
+					return true
+				}
+			}
+			return false
 		}
 		// values denoting the popped NodeInfo / its fields
 		isCurrent := func(base ssa.Value) bool {
@@ -296,10 +411,10 @@ func c03R1(c *Ctx) {
 			return c01Slice(v, func(x ssa.Value) bool { return isCurField(x, nodeNI) })
 		}
 		// predecessor lookup
-		fps := c03LookupCalls(F, fpOpt)
+		fps := c03LookupCalls(B, fpOpt)
 		var fp ssa.CallInstruction
 		for _, x := range fps {
-			if dfs.Contains(x.(ssa.Instruction)) {
+			if inLoop(x.(ssa.Instruction)) {
 				fp = x
 			}
 		}
@@ -314,8 +429,35 @@ func c03R1(c *Ctx) {
 		if preds == nil {
 			continue
 		}
-		r := ErrFlow(fp, ErrFlowOpts{})
-		c.Check(R, fname+"|predecessor-lookup-error", fp.Pos(), r.OK, r.How+r.Detail)
+		if rangeMode {
+			// in a range-over-func body an error return is: store the results, leave the loop (return false)
+			okErr := false
+			if e := ErrOf(fp); e != nil {
+				al := Aliases(e)
+				_, nonNil, _ := NilTests(B, al)
+				okErr = len(nonNil) > 0
+				for _, ne := range nonNil {
+					var stores []ssa.Instruction
+					AllInstrs(B, func(in ssa.Instruction) {
+						if st, isStore := in.(*ssa.Store); isStore && isErrorType(st.Val.Type()) && derivesFromAny(st.Val, al, 0) {
+							stores = append(stores, st)
+						}
+					})
+					if toNext(ne.To, 0, nil) {
+						okErr = false
+					}
+					for _, rt := range Returns(B) {
+						if reach(ne.To, 0, rt, newCut().Instr(stores...)) {
+							okErr = false
+						}
+					}
+				}
+			}
+			c.Check(R, fname+"|predecessor-lookup-error", fp.Pos(), okErr, ifelse(okErr, "on a lookup error the loop body stores the error as the function's result and leaves the loop", "a FindPredecessors error does not end the search with that error"))
+		} else {
+			r := ErrFlow(fp, ErrFlowOpts{})
+			c.Check(R, fname+"|predecessor-lookup-error", fp.Pos(), r.OK, r.How+r.Detail)
+		}
 		// the looked-up list, also when carried through a variable that is nil when no lookup was made
 		predsSet := Aliases(preds)
 		inPreds := func(v ssa.Value) bool { return v != nil && (predsSet[v] || predsSet[strip(v)]) }
@@ -324,8 +466,8 @@ func c03R1(c *Ctx) {
 		// stack/set/lookup helpers, that receives the popped node and reaches a map update;
 		// or a direct map update with the popped node.
 		var records []ssa.Instruction
-		AllInstrs(F, func(in ssa.Instruction) {
-			if !dfs.Contains(in) {
+		AllInstrs(B, func(in ssa.Instruction) {
+			if !inLoop(in) {
 				return
 			}
 			switch x := in.(type) {
@@ -365,26 +507,26 @@ func c03R1(c *Ctx) {
 		})
 		// push loop over the predecessors
 		var pushLoop *Loop
-		for _, l := range Loops(F) {
-			if rg, _, _, _, ok := c01ElemLoop(l); ok && inPreds(rg) && l != dfs {
+		for _, l := range Loops(B) {
+			if rg, _, _, _, ok := c01ElemLoop(l); ok && inPreds(rg) {
 				pushLoop = l
 			}
 		}
 		var zeroE, nonZeroE []Edge
 		for pv := range predsSet {
-			z, nz := c03LenEdges(F, pv)
+			z, nz := c03LenEdges(B, pv)
 			zeroE, nonZeroE = append(zeroE, z...), append(nonZeroE, nz...)
 		}
 		// visited-skip edges: true edges of `<set>.Contains(key)` tests
 		var visitedTrue []Edge
-		for _, i := range Ifs(F) {
+		for _, i := range Ifs(B) {
 			cond, t, _ := ifEdges(i)
 			if call, ok := cond.(*ssa.Call); ok && strings.HasSuffix(CalleeName(call), ".Contains") && strings.Contains(CalleeName(call), "/internal/container/set.") {
 				visitedTrue = append(visitedTrue, t)
 			}
 		}
 		// "already recorded" edges: the key is found in the map the record effect updates
-		for _, i := range Ifs(F) {
+		for _, i := range Ifs(B) {
 			cond, t, _ := ifEdges(i)
 			if ex, ok := cond.(*ssa.Extract); ok && ex.Index == 1 {
 				if lk, ok := ex.Tuple.(*ssa.Lookup); ok && lk.CommaOk {
@@ -410,7 +552,7 @@ func c03R1(c *Ctx) {
 		// (1a) every iteration that popped a node records it, expands it (non-empty predecessors), or skips it as visited
 		bad := false
 		for _, st := range starts {
-			if reach(st.b, st.i, header, newCut().Instr(records...).Edges(nonZeroE...).Edges(visitedTrue...)) {
+			if toNext(st.b, st.i, newCut().Instr(records...).Edges(nonZeroE...).Edges(visitedTrue...)) {
 				bad = true
 			}
 		}
@@ -427,14 +569,14 @@ func c03R1(c *Ctx) {
 		}
 		bad = false
 		for _, e := range nonZeroE {
-			if reach(e.To, 0, header, newCut().Edges(entries...).Instr(records...)) && e.To != pushLoop.Header {
+			if toNext(e.To, 0, newCut().Edges(entries...).Instr(records...)) && e.To != pushLoop.Header {
 				bad = true
 			}
 		}
 		c.Check(R, fname+"|non-empty-predecessors-enter-push-loop", blockPos(pushLoop.Header), !bad,
 			ifelse(!bad, "with predecessors present every path to the next iteration runs the loop over them", "a path with predecessors present skips the loop that pushes them"))
 		var pushesIn []ssa.CallInstruction
-		for _, p := range CallsTo(F, nStackPush) {
+		for _, p := range CallsTo(B, nStackPush) {
 			if pushLoop.Contains(p.(ssa.Instruction)) {
 				pushesIn = append(pushesIn, p)
 			}
@@ -451,7 +593,7 @@ func c03R1(c *Ctx) {
 				if e == exhausted {
 					continue
 				}
-				if reach(e.To, 0, header, nil) || c01SuccessReturnFrom(F, e, nil, nil) != nil {
+				if toNext(e.To, 0, nil) || (!rangeMode && c01SuccessReturnFrom(F, e, nil, nil) != nil) {
 					early = e.String()
 				}
 			}
@@ -488,7 +630,7 @@ func c03R1(c *Ctx) {
 		}
 		nInit := 0
 		for _, p := range CallsTo(F, nStackPush) {
-			if dfs.Contains(p.(ssa.Instruction)) {
+			if inLoop(p.(ssa.Instruction)) {
 				continue
 			}
 			nInit++
@@ -501,16 +643,16 @@ func c03R1(c *Ctx) {
 				k, isK = 0, true // field omitted in the literal: zero value
 			}
 			isParam := n != nil && c01ParamOf(n) != nil
-			ok := isK && k == 0 && isParam && n != nil && c01IsOCIDescriptor(n.Type()) && MustPass(header, newCut().Instr(p.(ssa.Instruction)))
+			ok := isK && k == 0 && isParam && n != nil && c01IsOCIDescriptor(n.Type()) && MustPass(loopEntry, newCut().Instr(p.(ssa.Instruction)))
 			c.Check(R, fname+"|initial-push-depth-0", p.Pos(), ok,
 				ifelse(ok, "the given node is pushed with Depth 0 before the DFS loop", "the initial push does not carry the given node with Depth 0 on every path into the loop"))
 		}
 		if nInit == 0 {
 			// the stack may be created with its initial content: pending := copyutil.Stack{{Node: node, Depth: 0}}
 			okLit, found := true, false
-			if recv, isAlloc := pop.Common().Args[0].(*ssa.Alloc); isAlloc {
+			if recv, isAlloc := stackRecv.(*ssa.Alloc); isAlloc {
 				for _, st := range storesTo(recv) {
-					if dfs.Contains(st) {
+					if inLoop(st) {
 						continue
 					}
 					sl, isSlice := strip(st.Val).(*ssa.Slice)
@@ -550,7 +692,7 @@ func c03R1(c *Ctx) {
 						if depthSet {
 							k, isK = constInt(depthV)
 						}
-						if !isK || k != 0 || nodeV == nil || c01ParamOf(nodeV) == nil || !MustPass(header, newCut().Instr(st)) {
+						if !isK || k != 0 || nodeV == nil || c01ParamOf(nodeV) == nil || !MustPass(loopEntry, newCut().Instr(st)) {
 							okLit = false
 						}
 					}
@@ -576,9 +718,23 @@ func c03R1(c *Ctx) {
 		var cutPos token.Pos
 		strictEq := true
 		offByOne := ""
-		for _, i := range Ifs(F) {
+		for _, i := range Ifs(B) {
 			cond, t, f := ifEdges(i)
 			bo, ok := cond.(*ssa.BinOp)
+			if !ok {
+				// a flag computed once (depthLimited := opts.Depth > 0), possibly captured by the loop body
+				var srcs []ssa.Value
+				if a := cellOf(cond); a != nil {
+					for _, st := range storesTo(a) {
+						srcs = append(srcs, st.Val)
+					}
+				} else if cs, okC := c01CarriedSources(c.P, cond); okC {
+					srcs = cs
+				}
+				if len(srcs) == 1 {
+					bo, ok = srcs[0].(*ssa.BinOp)
+				}
+			}
 			if !ok {
 				continue
 			}
@@ -650,7 +806,7 @@ func c03R1(c *Ctx) {
 			// the lookup is reached only below the cut-off (or with no limit)
 			ok := true
 			for _, st := range starts {
-				if reach(st.b, st.i, fp.(ssa.Instruction), newCut().Edges(cutNot...).Edges(unlimited...).Instr(header)) {
+				if reach(st.b, st.i, fp.(ssa.Instruction), newCut().Edges(cutNot...).Edges(unlimited...).Instr(nexts...)) {
 					ok = false
 				}
 			}
@@ -682,11 +838,11 @@ func c03R1(c *Ctx) {
 						}
 					}
 					if len(nilIn) > 0 && (viaNil || !reach(e.To, 0, phi.Block().Instrs[0], newCut().Edges(nilIn...))) {
-						_, nz := c03LenEdges(F, pv)
+						_, nz := c03LenEdges(B, pv)
 						walkCut.Edges(nz...)
 					}
 				}
-				if reach(e.To, 0, header, walkCut) {
+				if toNext(e.To, 0, walkCut) {
 					bad = true
 				}
 			}
@@ -734,7 +890,25 @@ func c03R1(c *Ctx) {
 			c.Check(R, fname+"|default-predecessors", s.Pos(), ok,
 				ifelse(ok, "a nil FindPredecessors defaults to src.Predecessors(ctx, desc)", "the default FindPredecessors is not src.Predecessors of the asked node, or it overwrites a caller-supplied function"))
 		}
-		for _, alt := range c03Alternatives(fp.Common().Value) {
+		alts := c03Alternatives(fp.Common().Value)
+		if ld, isLd := fp.Common().Value.(*ssa.UnOp); isLd && ld.Op == token.MUL {
+			if fv, isFV := ld.X.(*ssa.FreeVar); isFV {
+				// the lookup goes through a variable of F captured by the loop body: its assignments in F are the alternatives
+				alts = nil
+				for _, bnd := range freeVarBindings(fv) {
+					if a, isAlloc := bnd.(*ssa.Alloc); isAlloc {
+						for _, st := range storesTo(a) {
+							alt := c03Alt{Val: st.Val}
+							if !c01IsFieldValue(st.Val, fpOpt) && len(nilE) > 0 && MustPass(st, newCut().Edges(nilE...)) {
+								alt.Edges = []Edge{nilE[0]} // marks "assigned under the nil test"
+							}
+							alts = append(alts, alt)
+						}
+					}
+				}
+			}
+		}
+		for _, alt := range alts {
 			if fieldLoads[alt.Val] || c01IsFieldValue(alt.Val, fpOpt) {
 				continue
 			}
@@ -976,10 +1150,55 @@ func c03Classify(v ssa.Value) (kind string, base ssa.Value) {
 // c03IsDecoded: base is a struct a manifest document is decoded into — a local
 // whose address is handed to encoding/json, or a parameter of such a struct
 // type whose fields carry JSON tags (a helper receiving the decoded manifest).
-func c03IsDecoded(base ssa.Value) bool {
+func c03IsDecoded(base ssa.Value) bool { return c03IsDecodedD(base, 0) }
+
+func c03IsDecodedD(base ssa.Value, depth int) bool {
+	if depth > 3 {
+		return false
+	}
+	// the result of a module helper that decodes and returns the document (fetchJSON[T], decodeNode[T] -> T / *T)
+	resultOf := func(v ssa.Value) bool {
+		var call *ssa.Call
+		switch u := v.(type) {
+		case *ssa.Call:
+			call = u
+		case *ssa.Extract:
+			if cl, ok := u.Tuple.(*ssa.Call); ok && u.Index == 0 {
+				call = cl
+			}
+		}
+		if call == nil {
+			return false
+		}
+		g := StaticCallee(call)
+		if g == nil || !inModule(g) || len(g.Blocks) == 0 {
+			return false
+		}
+		okAny := false
+		for _, at := range RetAtoms(g, 0) {
+			if c01IsErrorReturn(at.Ret, ErrResultIndex(g.Signature)) {
+				continue
+			}
+			var src ssa.Value = at.Val
+			if ld, isLd := src.(*ssa.UnOp); isLd && ld.Op == token.MUL {
+				src = ld.X // the document returned by value
+			}
+			if !c03IsDecodedD(src, depth+1) {
+				return false
+			}
+			okAny = true
+		}
+		return okAny
+	}
+	if resultOf(base) {
+		return true
+	}
 	a, ok := base.(*ssa.Alloc)
 	if !ok {
 		return false
+	}
+	if ss := storesTo(a); len(ss) == 1 && resultOf(ss[0].Val) {
+		return true
 	}
 	for _, r := range *a.Referrers() {
 		if mi, isMI := r.(*ssa.MakeInterface); isMI {
@@ -1521,6 +1740,13 @@ type c03FilterLoop struct {
 // c03CheckFilterLoop analyses one `for _, e := range X` over descriptors in G
 // that filters e through a keep test into an accumulator.
 func c03CheckFilterLoop(G *ssa.Function, l *Loop, descMT *types.Var) (res c03FilterLoop, isFilter bool) {
+	return c03CheckFilterLoopY(G, l, descMT, nil)
+}
+
+// c03CheckFilterLoopY: with yield != nil the loop is the body of an iterator
+// (iter.Seq producer): "keeping" an element is yielding it, and the loop may
+// also end when yield returns false.
+func c03CheckFilterLoopY(G *ssa.Function, l *Loop, descMT *types.Var, yield ssa.Value) (res c03FilterLoop, isFilter bool) {
 	X, idx, body, _, _ := c01ElemLoop(l)
 	res.loop = l
 	header := l.Header.Instrs[0]
@@ -1563,13 +1789,35 @@ func c03CheckFilterLoop(G *ssa.Function, l *Loop, descMT *types.Var) (res c03Fil
 	var appends []*ssa.Call
 	AllInstrs(G, func(in ssa.Instruction) {
 		call, ok := in.(*ssa.Call)
-		if !ok || !l.Contains(call) || CalleeName(call) != "builtin:append" || len(call.Call.Args) != 2 {
+		if !ok || !l.Contains(call) {
+			return
+		}
+		if yield != nil {
+			if !call.Call.IsInvoke() && call.Call.Value == yield && len(call.Call.Args) == 1 && derivesElem(call.Call.Args[0]) {
+				appends = append(appends, call)
+			}
+			return
+		}
+		if CalleeName(call) != "builtin:append" || len(call.Call.Args) != 2 {
 			return
 		}
 		if derivesElem(call.Call.Args[1]) {
 			appends = append(appends, call)
 		}
 	})
+	if yield != nil {
+		// the yield result test is not the keep test
+		var ks []ssa.Instruction
+		var kt []Edge
+		for i, ki := range keepIfs {
+			cond, _, _ := ifEdges(ki.(*ssa.If))
+			if cc, isCall := cond.(*ssa.Call); isCall && !cc.Call.IsInvoke() && cc.Call.Value == yield {
+				continue
+			}
+			ks, kt = append(ks, ki), append(kt, keepTrue[i])
+		}
+		keepIfs, keepTrue = ks, kt
+	}
 	if len(keepIfs) == 0 && len(appends) == 0 {
 		return res, false
 	}
@@ -1584,6 +1832,9 @@ func c03CheckFilterLoop(G *ssa.Function, l *Loop, descMT *types.Var) (res c03Fil
 	}
 	// accumulator identity
 	for _, ap := range appends {
+		if yield != nil {
+			break
+		}
 		a0 := ap.Call.Args[0]
 		if phi, ok := a0.(*ssa.Phi); ok && phi.Block() == l.Header {
 			if res.accPhi != nil && res.accPhi != phi {
@@ -1618,6 +1869,15 @@ func c03CheckFilterLoop(G *ssa.Function, l *Loop, descMT *types.Var) (res c03Fil
 			if e == exhausted {
 				continue
 			}
+			if yield != nil {
+				var ys []ssa.Instruction
+				for _, ap := range appends {
+					ys = append(ys, ap)
+				}
+				if c01MustPassEdge(e, newCut().Instr(ys...)) {
+					continue // the consumer stopped (yield returned false)
+				}
+			}
 			if c01SuccessReturnFrom(G, e, nil, nil) != nil {
 				res.why = "the filtering loop can be left early (break / return) without an error: the remaining elements are never tested"
 				return
@@ -1632,7 +1892,7 @@ func c03CheckFilterLoop(G *ssa.Function, l *Loop, descMT *types.Var) (res c03Fil
 	// (b2) on the keep edge the element is appended (and, for a cell, stored back)
 	kept := newCut()
 	for _, ap := range appends {
-		if res.accPhi != nil {
+		if res.accPhi != nil || yield != nil {
 			kept.Instr(ap)
 			continue
 		}
@@ -1693,7 +1953,7 @@ func c03CellOnlyAppended(G *ssa.Function, cell ssa.Value) (bool, token.Pos) {
 			return
 		}
 		call, isCall := st.Val.(*ssa.Call)
-		good := isCall && CalleeName(call) == "builtin:append" && len(call.Call.Args) >= 1
+		good := isCall && (CalleeName(call) == "builtin:append" || CalleeName(call) == "slices.AppendSeq") && len(call.Call.Args) >= 1
 		if good {
 			ld, isLoad := call.Call.Args[0].(*ssa.UnOp)
 			good = isLoad && ld.Op == token.MUL && ld.X == cell
@@ -1765,6 +2025,60 @@ func c03R6(c *Ctx) {
 							fl = &r
 						}
 					}
+				}
+				if fl == nil {
+					// kept = slices.AppendSeq(kept, keptOnly(page, keep)): the filtering loop is the iterator's
+					AllInstrs(G, func(in ssa.Instruction) {
+						st, isStore := in.(*ssa.Store)
+						if !isStore {
+							return
+						}
+						ap, isCall := st.Val.(*ssa.Call)
+						if !isCall || CalleeName(ap) != "slices.AppendSeq" || len(ap.Call.Args) != 2 {
+							return
+						}
+						ld, isLd := ap.Call.Args[0].(*ssa.UnOp)
+						if !isLd || ld.Op != token.MUL || ld.X != st.Addr {
+							return
+						}
+						seq, isSeq := ap.Call.Args[1].(*ssa.Call)
+						if !isSeq {
+							return
+						}
+						g := StaticCallee(seq)
+						if g == nil || !inModule(g) || len(g.Blocks) == 0 {
+							return
+						}
+						var P *ssa.Function
+						for _, r := range Returns(g) {
+							if f, _ := c01FuncOfValue(r.Results[0]); f != nil {
+								P = f
+							}
+						}
+						if P == nil || len(P.Params) == 0 {
+							return
+						}
+						// the page is one of the iterator function's arguments
+						pageParam := -1
+						for i, a := range seq.Call.Args {
+							if isDescSlice(a.Type()) && c01ParamOf(a) != nil && i < len(g.Params) {
+								pageParam = i
+							}
+						}
+						if pageParam < 0 {
+							return
+						}
+						for _, l := range Loops(P) {
+							X, _, _, _, ok := c01ElemLoop(l)
+							if !ok || !isDescSlice(X.Type()) || !c01CarriedFrom(c.P, X, g.Params[pageParam]) {
+								continue
+							}
+							if r, isF := c03CheckFilterLoopY(P, l, descMT, P.Params[0]); isF {
+								r.accCell = st.Addr
+								fl = &r
+							}
+						}
+					})
 				}
 				if fl == nil {
 					c.Undecided(R, ck+"|every-referrer-tested-and-kept", G.Pos(), "no filtering loop over the page of referrers recognised in the callback")
